@@ -6,89 +6,89 @@ Import ListNotations.
 Open Scope string_scope.
 
 Definition expected_wraps_C01 : list string := [
-  "crypto/lm: LMHash: << uint8: firstHalf[0] << 7";
-  "crypto/lm: LMHash: << uint8: firstHalf[1] << 6";
-  "crypto/lm: LMHash: << uint8: firstHalf[2] << 5";
-  "crypto/lm: LMHash: << uint8: firstHalf[3] << 4";
-  "crypto/lm: LMHash: << uint8: firstHalf[4] << 3";
-  "crypto/lm: LMHash: << uint8: firstHalf[5] << 2";
-  "crypto/lm: LMHash: << uint8: firstHalf[6] << 1";
-  "crypto/lm: LMHash: << uint8: secondHalf[0] << 7";
-  "crypto/lm: LMHash: << uint8: secondHalf[1] << 6";
-  "crypto/lm: LMHash: << uint8: secondHalf[2] << 5";
-  "crypto/lm: LMHash: << uint8: secondHalf[3] << 4";
-  "crypto/lm: LMHash: << uint8: secondHalf[4] << 3";
-  "crypto/lm: LMHash: << uint8: secondHalf[5] << 2";
-  "crypto/lm: LMHash: << uint8: secondHalf[6] << 1";
-  "crypto/md4: *MD4.Sum: += uint64: padLen += chunkSize";
-  "crypto/md4: *MD4.Sum: - uint64: 56 - index";
-  "crypto/md4: *MD4.Write: * uint64: uint64(n) * 8";
-  "crypto/md4: *MD4.Write: += uint64: md4.count += uint64(n) * 8";
-  "crypto/md4: *MD4.Write: - uint64: md4.count/8 - uint64(n)";
-  "crypto/md4: *MD4.processChunk: += uint32: md4.state[0] += a";
-  "crypto/md4: *MD4.processChunk: += uint32: md4.state[1] += b";
-  "crypto/md4: *MD4.processChunk: += uint32: md4.state[2] += c";
-  "crypto/md4: *MD4.processChunk: += uint32: md4.state[3] += d";
-  "crypto/md4: ff: + uint32: a + (d ^ (b & (c ^ d)))";
-  "crypto/md4: ff: + uint32: a + (d ^ (b & (c ^ d))) + x";
-  "crypto/md4: gg: + uint32: a + ((b & c) | (d & (b | c)))";
-  "crypto/md4: gg: + uint32: a + ((b & c) | (d & (b | c))) + x";
-  "crypto/md4: gg: + uint32: a + ((b & c) | (d & (b | c))) + x + 0x5a827999";
-  "crypto/md4: hh: + uint32: a + (b ^ c ^ d)";
-  "crypto/md4: hh: + uint32: a + (b ^ c ^ d) + x";
-  "crypto/md4: hh: + uint32: a + (b ^ c ^ d) + x + 0x6ed9eba1";
-  "crypto/md4: rol: - uint32: 32 - s";
-  "crypto/md4: rol: << uint32: x << s";
-  "utils/encoding/utf16: DecodeUTF16LE: << uint16: uint16(b[i+1]) << 8"
+  "crypto/lm: << uint8: _[0] << 7";
+  "crypto/lm: << uint8: _[0] << 7";
+  "crypto/lm: << uint8: _[1] << 6";
+  "crypto/lm: << uint8: _[1] << 6";
+  "crypto/lm: << uint8: _[2] << 5";
+  "crypto/lm: << uint8: _[2] << 5";
+  "crypto/lm: << uint8: _[3] << 4";
+  "crypto/lm: << uint8: _[3] << 4";
+  "crypto/lm: << uint8: _[4] << 3";
+  "crypto/lm: << uint8: _[4] << 3";
+  "crypto/lm: << uint8: _[5] << 2";
+  "crypto/lm: << uint8: _[5] << 2";
+  "crypto/lm: << uint8: _[6] << 1";
+  "crypto/lm: << uint8: _[6] << 1";
+  "crypto/md4: * uint64: uint64(_) * 8";
+  "crypto/md4: + uint32: _ + ((_ & _) | (_ & (_ | _)))";
+  "crypto/md4: + uint32: _ + ((_ & _) | (_ & (_ | _))) + _";
+  "crypto/md4: + uint32: _ + ((_ & _) | (_ & (_ | _))) + _ + 0x5a827999";
+  "crypto/md4: + uint32: _ + (_ ^ (_ & (_ ^ _)))";
+  "crypto/md4: + uint32: _ + (_ ^ (_ & (_ ^ _))) + _";
+  "crypto/md4: + uint32: _ + (_ ^ _ ^ _)";
+  "crypto/md4: + uint32: _ + (_ ^ _ ^ _) + _";
+  "crypto/md4: + uint32: _ + (_ ^ _ ^ _) + _ + 0x6ed9eba1";
+  "crypto/md4: += uint32: _.state[0] += _";
+  "crypto/md4: += uint32: _.state[1] += _";
+  "crypto/md4: += uint32: _.state[2] += _";
+  "crypto/md4: += uint32: _.state[3] += _";
+  "crypto/md4: += uint64: _ += _";
+  "crypto/md4: += uint64: _.count += uint64(_) * 8";
+  "crypto/md4: - uint32: 32 - _";
+  "crypto/md4: - uint64: 56 - _";
+  "crypto/md4: - uint64: _.count/8 - uint64(_)";
+  "crypto/md4: << uint32: _ << _";
+  "utils/encoding/utf16: << uint16: uint16(_[_+1]) << 8"
 ].
 
 Definition expected_wraps_C02 : list string := [
-  "crypto/ntlmv1: ParityAdjust: << uint8: 1 << (7 - offset)";
-  "crypto/ntlmv1: ParityAdjust: narrow to uint8: byte(ParityBit(int(parityAdjustedByte)))";
-  "network/smb/smb_v10/spnego/ntlm: CreateAuthenticateMessage: narrow to uint16: uint16(len(domainBytes))";
-  "network/smb/smb_v10/spnego/ntlm: CreateAuthenticateMessage: narrow to uint16: uint16(len(domainBytes))";
-  "network/smb/smb_v10/spnego/ntlm: CreateAuthenticateMessage: narrow to uint16: uint16(len(lmResponse))";
-  "network/smb/smb_v10/spnego/ntlm: CreateAuthenticateMessage: narrow to uint16: uint16(len(lmResponse))";
-  "network/smb/smb_v10/spnego/ntlm: CreateAuthenticateMessage: narrow to uint16: uint16(len(ntResponse))";
-  "network/smb/smb_v10/spnego/ntlm: CreateAuthenticateMessage: narrow to uint16: uint16(len(ntResponse))";
-  "network/smb/smb_v10/spnego/ntlm: CreateAuthenticateMessage: narrow to uint16: uint16(len(sessionKey))";
-  "network/smb/smb_v10/spnego/ntlm: CreateAuthenticateMessage: narrow to uint16: uint16(len(sessionKey))";
-  "network/smb/smb_v10/spnego/ntlm: CreateAuthenticateMessage: narrow to uint16: uint16(len(usernameBytes))";
-  "network/smb/smb_v10/spnego/ntlm: CreateAuthenticateMessage: narrow to uint16: uint16(len(usernameBytes))";
-  "network/smb/smb_v10/spnego/ntlm: CreateAuthenticateMessage: narrow to uint16: uint16(len(workstationBytes))";
-  "network/smb/smb_v10/spnego/ntlm: CreateAuthenticateMessage: narrow to uint16: uint16(len(workstationBytes))";
-  "network/smb/smb_v10/spnego/ntlm: CreateAuthenticateMessage: narrow to uint32: uint32(domainOffset)";
-  "network/smb/smb_v10/spnego/ntlm: CreateAuthenticateMessage: narrow to uint32: uint32(lmResponseOffset)";
-  "network/smb/smb_v10/spnego/ntlm: CreateAuthenticateMessage: narrow to uint32: uint32(ntResponseOffset)";
-  "network/smb/smb_v10/spnego/ntlm: CreateAuthenticateMessage: narrow to uint32: uint32(sessionKeyOffset)";
-  "network/smb/smb_v10/spnego/ntlm: CreateAuthenticateMessage: narrow to uint32: uint32(usernameOffset)";
-  "network/smb/smb_v10/spnego/ntlm: CreateAuthenticateMessage: narrow to uint32: uint32(workstationOffset)";
-  "network/smb/smb_v10/spnego/ntlm: CreateNegotiateMessage: narrow to uint16: uint16(len(domainBytes))";
-  "network/smb/smb_v10/spnego/ntlm: CreateNegotiateMessage: narrow to uint16: uint16(len(domainBytes))";
-  "network/smb/smb_v10/spnego/ntlm: CreateNegotiateMessage: narrow to uint16: uint16(len(workstationBytes))";
-  "network/smb/smb_v10/spnego/ntlm: CreateNegotiateMessage: narrow to uint16: uint16(len(workstationBytes))";
-  "network/smb/smb_v10/spnego/ntlm: CreateNegotiateMessage: narrow to uint32: uint32(domainOffset)";
-  "network/smb/smb_v10/spnego/ntlm: CreateNegotiateMessage: narrow to uint32: uint32(workstationOffset)";
-  "network/smb/smb_v10/spnego/ntlm: createDesKey: << uint8: (bytes[0] & 0x01) << 6";
-  "network/smb/smb_v10/spnego/ntlm: createDesKey: << uint8: (bytes[1] & 0x03) << 5";
-  "network/smb/smb_v10/spnego/ntlm: createDesKey: << uint8: (bytes[2] & 0x07) << 4";
-  "network/smb/smb_v10/spnego/ntlm: createDesKey: << uint8: (bytes[3] & 0x0F) << 3";
-  "network/smb/smb_v10/spnego/ntlm: createDesKey: << uint8: (bytes[4] & 0x1F) << 2";
-  "network/smb/smb_v10/spnego/ntlm: createDesKey: << uint8: (bytes[5] & 0x3F) << 1";
-  "network/smb/smb_v10/spnego/ntlm: createDesKey: << uint8: 1 << j";
-  "network/smb/smb_v10/spnego/ntlm: createDesKey: << uint8: key[i] << 1"
+  "crypto/ntlmv1: << uint8: 1 << (7 - _)";
+  "crypto/ntlmv1: narrow to uint8: byte(ParityBit(int(_)))";
+  "network/smb/smb_v10/spnego/ntlm: << uint8: (_[0] & 0x01) << 6";
+  "network/smb/smb_v10/spnego/ntlm: << uint8: (_[1] & 0x03) << 5";
+  "network/smb/smb_v10/spnego/ntlm: << uint8: (_[2] & 0x07) << 4";
+  "network/smb/smb_v10/spnego/ntlm: << uint8: (_[3] & 0x0F) << 3";
+  "network/smb/smb_v10/spnego/ntlm: << uint8: (_[4] & 0x1F) << 2";
+  "network/smb/smb_v10/spnego/ntlm: << uint8: (_[5] & 0x3F) << 1";
+  "network/smb/smb_v10/spnego/ntlm: << uint8: 1 << _";
+  "network/smb/smb_v10/spnego/ntlm: << uint8: _[_] << 1";
+  "network/smb/smb_v10/spnego/ntlm: narrow to uint16: uint16(len(_))";
+  "network/smb/smb_v10/spnego/ntlm: narrow to uint16: uint16(len(_))";
+  "network/smb/smb_v10/spnego/ntlm: narrow to uint16: uint16(len(_))";
+  "network/smb/smb_v10/spnego/ntlm: narrow to uint16: uint16(len(_))";
+  "network/smb/smb_v10/spnego/ntlm: narrow to uint16: uint16(len(_))";
+  "network/smb/smb_v10/spnego/ntlm: narrow to uint16: uint16(len(_))";
+  "network/smb/smb_v10/spnego/ntlm: narrow to uint16: uint16(len(_))";
+  "network/smb/smb_v10/spnego/ntlm: narrow to uint16: uint16(len(_))";
+  "network/smb/smb_v10/spnego/ntlm: narrow to uint16: uint16(len(_))";
+  "network/smb/smb_v10/spnego/ntlm: narrow to uint16: uint16(len(_))";
+  "network/smb/smb_v10/spnego/ntlm: narrow to uint16: uint16(len(_))";
+  "network/smb/smb_v10/spnego/ntlm: narrow to uint16: uint16(len(_))";
+  "network/smb/smb_v10/spnego/ntlm: narrow to uint16: uint16(len(_))";
+  "network/smb/smb_v10/spnego/ntlm: narrow to uint16: uint16(len(_))";
+  "network/smb/smb_v10/spnego/ntlm: narrow to uint16: uint16(len(_))";
+  "network/smb/smb_v10/spnego/ntlm: narrow to uint16: uint16(len(_))";
+  "network/smb/smb_v10/spnego/ntlm: narrow to uint32: uint32(_)";
+  "network/smb/smb_v10/spnego/ntlm: narrow to uint32: uint32(_)";
+  "network/smb/smb_v10/spnego/ntlm: narrow to uint32: uint32(_)";
+  "network/smb/smb_v10/spnego/ntlm: narrow to uint32: uint32(_)";
+  "network/smb/smb_v10/spnego/ntlm: narrow to uint32: uint32(_)";
+  "network/smb/smb_v10/spnego/ntlm: narrow to uint32: uint32(_)";
+  "network/smb/smb_v10/spnego/ntlm: narrow to uint32: uint32(_)";
+  "network/smb/smb_v10/spnego/ntlm: narrow to uint32: uint32(_)"
 ].
 
 Definition expected_wraps_C03 : list string := [
-  "network/smb/smb_v10/message/data: *Data.Add: narrow to uint16: uint16(len(d.Bytes))";
-  "network/smb/smb_v10/message/data: *Data.SetData: narrow to uint16: uint16(len(data))";
-  "network/smb/smb_v10/message/parameters: *Parameters.AddWord: narrow to uint8: uint8(len(p.Words) * 2)";
-  "network/smb/smb_v10/message/parameters: *Parameters.AddWordsFromBytesStream: << uint16: uint16(bytesStream[i]) << 8";
-  "network/smb/smb_v10/message/parameters: *Parameters.AddWordsFromBytesStream: narrow to uint8: uint8(len(p.Words))";
-  "network/smb/smb_v10/message/parameters: *Parameters.GetBytesStream: narrow to uint8: uint8(word & 0xFF)";
-  "network/smb/smb_v10/message/parameters: *Parameters.GetBytesStream: narrow to uint8: uint8(word >> 8)";
-  "network/smb/smb_v10/message/parameters: *Parameters.Marshal: narrow to uint8: uint8(len(p.Words))";
-  "network/smb/smb_v10/message/parameters: *Parameters.Size: narrow to uint16: uint16(len(p.Words))"
+  "network/smb/smb_v10/message/data: narrow to uint16: uint16(len(_))";
+  "network/smb/smb_v10/message/data: narrow to uint16: uint16(len(_.Bytes))";
+  "network/smb/smb_v10/message/parameters: << uint16: uint16(_[_]) << 8";
+  "network/smb/smb_v10/message/parameters: narrow to uint16: uint16(len(_.Words))";
+  "network/smb/smb_v10/message/parameters: narrow to uint8: uint8(_ & 0xFF)";
+  "network/smb/smb_v10/message/parameters: narrow to uint8: uint8(_ >> 8)";
+  "network/smb/smb_v10/message/parameters: narrow to uint8: uint8(len(_.Words) * 2)";
+  "network/smb/smb_v10/message/parameters: narrow to uint8: uint8(len(_.Words))";
+  "network/smb/smb_v10/message/parameters: narrow to uint8: uint8(len(_.Words))"
 ].
 
 Definition expected_wraps_C04 : list string := [
@@ -96,467 +96,467 @@ Definition expected_wraps_C04 : list string := [
 ].
 
 Definition expected_wraps_C05 : list string := [
-  "network/smb/smb_v10/types: *OEM_STRING.SetString: narrow to uint16: uint16(len(str))";
-  "network/smb/smb_v10/types: *SMB_DATE.Marshal: - uint16: d.Year - 1980";
-  "network/smb/smb_v10/types: *SMB_DATE.Marshal: << uint16: (d.Year - 1980) << 9";
-  "network/smb/smb_v10/types: *SMB_DATE.Marshal: << uint16: uint16(d.Month) << 5";
-  "network/smb/smb_v10/types: *SMB_RESUME_KEY.Marshal: narrow to uint16: uint16(len(byteStream))";
-  "network/smb/smb_v10/types: NewOEM_STRINGFromString: narrow to uint16: uint16(len(str))";
-  "network/smb/smb_v10/types: NewSMB_DATEFromDate: narrow to uint16: uint16(year)";
-  "network/smb/smb_v10/types: NewSMB_DATEFromDate: narrow to uint8: uint8(day)";
-  "network/smb/smb_v10/types: NewSMB_DATEFromDate: narrow to uint8: uint8(month)"
+  "network/smb/smb_v10/types: - uint16: _.Year - 1980";
+  "network/smb/smb_v10/types: << uint16: (_.Year - 1980) << 9";
+  "network/smb/smb_v10/types: << uint16: uint16(_.Month) << 5";
+  "network/smb/smb_v10/types: narrow to uint16: uint16(_)";
+  "network/smb/smb_v10/types: narrow to uint16: uint16(len(_))";
+  "network/smb/smb_v10/types: narrow to uint16: uint16(len(_))";
+  "network/smb/smb_v10/types: narrow to uint16: uint16(len(_))";
+  "network/smb/smb_v10/types: narrow to uint8: uint8(_)";
+  "network/smb/smb_v10/types: narrow to uint8: uint8(_)"
 ].
 
 Definition expected_wraps_C06 : list string := [
-  "network/smb/smb_v10/message/data: *Data.Add: narrow to uint16: uint16(len(d.Bytes))";
-  "network/smb/smb_v10/message/data: *Data.SetData: narrow to uint16: uint16(len(data))";
-  "network/smb/smb_v10/message/parameters: *Parameters.AddWord: narrow to uint8: uint8(len(p.Words) * 2)";
-  "network/smb/smb_v10/message/parameters: *Parameters.AddWordsFromBytesStream: << uint16: uint16(bytesStream[i]) << 8";
-  "network/smb/smb_v10/message/parameters: *Parameters.AddWordsFromBytesStream: narrow to uint8: uint8(len(p.Words))";
-  "network/smb/smb_v10/message/parameters: *Parameters.GetBytesStream: narrow to uint8: uint8(word & 0xFF)";
-  "network/smb/smb_v10/message/parameters: *Parameters.GetBytesStream: narrow to uint8: uint8(word >> 8)";
-  "network/smb/smb_v10/message/parameters: *Parameters.Marshal: narrow to uint8: uint8(len(p.Words))";
-  "network/smb/smb_v10/message/parameters: *Parameters.Size: narrow to uint16: uint16(len(p.Words))";
-  "network/smb/smb_v10/types: *OEM_STRING.SetString: narrow to uint16: uint16(len(str))";
-  "network/smb/smb_v10/types: *SMB_DATE.Marshal: - uint16: d.Year - 1980";
-  "network/smb/smb_v10/types: *SMB_DATE.Marshal: << uint16: (d.Year - 1980) << 9";
-  "network/smb/smb_v10/types: *SMB_DATE.Marshal: << uint16: uint16(d.Month) << 5";
-  "network/smb/smb_v10/types: *SMB_RESUME_KEY.Marshal: narrow to uint16: uint16(len(byteStream))";
-  "network/smb/smb_v10/types: NewOEM_STRINGFromString: narrow to uint16: uint16(len(str))";
-  "network/smb/smb_v10/types: NewSMB_DATEFromDate: narrow to uint16: uint16(year)";
-  "network/smb/smb_v10/types: NewSMB_DATEFromDate: narrow to uint8: uint8(day)";
-  "network/smb/smb_v10/types: NewSMB_DATEFromDate: narrow to uint8: uint8(month)";
-  "windows/ms_dtyp/common/data_structures: *FILETIME.GetTime: * int64: (ticks % 10000000) * 100";
-  "windows/ms_dtyp/common/data_structures: *FILETIME.GetTime: - int64: ticks/10000000 - UnixTimestampIn100NsIntervals/10000000";
-  "windows/ms_dtyp/common/data_structures: *FILETIME.ToInt64: << int64: int64(ft.DwHighDateTime) & 0xFFFFFFFF << 32"
+  "network/smb/smb_v10/message/data: narrow to uint16: uint16(len(_))";
+  "network/smb/smb_v10/message/data: narrow to uint16: uint16(len(_.Bytes))";
+  "network/smb/smb_v10/message/parameters: << uint16: uint16(_[_]) << 8";
+  "network/smb/smb_v10/message/parameters: narrow to uint16: uint16(len(_.Words))";
+  "network/smb/smb_v10/message/parameters: narrow to uint8: uint8(_ & 0xFF)";
+  "network/smb/smb_v10/message/parameters: narrow to uint8: uint8(_ >> 8)";
+  "network/smb/smb_v10/message/parameters: narrow to uint8: uint8(len(_.Words) * 2)";
+  "network/smb/smb_v10/message/parameters: narrow to uint8: uint8(len(_.Words))";
+  "network/smb/smb_v10/message/parameters: narrow to uint8: uint8(len(_.Words))";
+  "network/smb/smb_v10/types: - uint16: _.Year - 1980";
+  "network/smb/smb_v10/types: << uint16: (_.Year - 1980) << 9";
+  "network/smb/smb_v10/types: << uint16: uint16(_.Month) << 5";
+  "network/smb/smb_v10/types: narrow to uint16: uint16(_)";
+  "network/smb/smb_v10/types: narrow to uint16: uint16(len(_))";
+  "network/smb/smb_v10/types: narrow to uint16: uint16(len(_))";
+  "network/smb/smb_v10/types: narrow to uint16: uint16(len(_))";
+  "network/smb/smb_v10/types: narrow to uint8: uint8(_)";
+  "network/smb/smb_v10/types: narrow to uint8: uint8(_)";
+  "windows/ms_dtyp/common/data_structures: * int64: (_ % 10000000) * 100";
+  "windows/ms_dtyp/common/data_structures: - int64: _/10000000 - _/10000000";
+  "windows/ms_dtyp/common/data_structures: << int64: int64(_.DwHighDateTime) & 0xFFFFFFFF << 32"
 ].
 
 Definition expected_wraps_C07 : list string := [
-  "crypto/pkcs7: Pad: narrow to uint8: byte(padLen)";
-  "crypto/uuid: *UUID.Marshal: << uint8: (u.Variant & 0xF) << 4";
-  "crypto/uuid: *UUID.Marshal: << uint8: (u.Version & 0xF) << 4";
-  "crypto/uuid: *UUID.Marshal: << uint8: data6low & 0xF << 4";
-  "crypto/uuid: *UUID.Unmarshal: << uint8: (marshalledData[6] & 0x0F) << 4";
-  "crypto/uuid: *UUID.Unmarshal: << uint8: (marshalledData[7] & 0x0F) << 4";
-  "crypto/uuid/uuid_v1: *UUIDv1.GetTime: * int64: int64(timestamp%10000000) * 100";
-  "crypto/uuid/uuid_v1: *UUIDv1.GetTime: - int64: int64(timestamp/10000000) - int64(UUIDv1Epoch/10000000)";
-  "crypto/uuid/uuid_v1: *UUIDv1.Marshal: << uint8: byte(timeHigh&0x0F) << 4";
-  "crypto/uuid/uuid_v1: *UUIDv1.Marshal: narrow to uint16: uint16((u.Time & 0x0000FFFF00000000) >> 32)";
-  "crypto/uuid/uuid_v1: *UUIDv1.Marshal: narrow to uint16: uint16((u.Time & 0x0FFF000000000000) >> 48)";
-  "crypto/uuid/uuid_v1: *UUIDv1.Marshal: narrow to uint32: uint32(u.Time & 0x00000000FFFFFFFF)";
-  "crypto/uuid/uuid_v1: *UUIDv1.Marshal: narrow to uint8: byte((timeHigh >> 4) & 0xFF)";
-  "crypto/uuid/uuid_v1: *UUIDv1.Marshal: narrow to uint8: byte((u.ClockSeq & 0x0F00) >> 8)";
-  "crypto/uuid/uuid_v1: *UUIDv1.Marshal: narrow to uint8: byte(timeHigh & 0x0F)";
-  "crypto/uuid/uuid_v1: *UUIDv1.Marshal: narrow to uint8: byte(u.ClockSeq & 0xFF)";
-  "crypto/uuid/uuid_v2: *UUIDv2.GetTime: * int64: int64(timestamp%10000000) * 100";
-  "crypto/uuid/uuid_v2: *UUIDv2.GetTime: - int64: int64(timestamp/10000000) - int64(UUIDv2Epoch/10000000)";
-  "crypto/uuid/uuid_v2: *UUIDv2.Marshal: << uint8: byte(timeHigh&0x0F) << 4";
-  "crypto/uuid/uuid_v2: *UUIDv2.Marshal: narrow to uint16: uint16((u.Time & 0x0000FFFF00000000) >> 32)";
-  "crypto/uuid/uuid_v2: *UUIDv2.Marshal: narrow to uint16: uint16((u.Time & 0x0FFF000000000000) >> 48)";
-  "crypto/uuid/uuid_v2: *UUIDv2.Marshal: narrow to uint8: byte((timeHigh >> 4) & 0xFF)";
-  "crypto/uuid/uuid_v2: *UUIDv2.Marshal: narrow to uint8: byte(timeHigh & 0x0F)";
-  "network/ip: *IPv4.ComputeMask: - uint8: 32 - i.MaskBits";
-  "network/ip: *IPv4.ComputeMask: << uint32: uint32(0xFFFFFFFF) << (32 - i.MaskBits)";
-  "network/ip: *IPv4.ComputeMask: narrow to uint8: uint8((masked >> 16) & 0xFF)";
-  "network/ip: *IPv4.ComputeMask: narrow to uint8: uint8((masked >> 24) & 0xFF)";
-  "network/ip: *IPv4.ComputeMask: narrow to uint8: uint8((masked >> 8) & 0xFF)";
-  "network/ip: *IPv4.ComputeMask: narrow to uint8: uint8(masked & 0xFF)";
-  "network/ip: *IPv4.IsInSubnet: - uint8: 32 - subnet.MaskBits";
-  "network/ip: *IPv4.IsInSubnet: << uint32: uint32(0xFFFFFFFF) << (32 - subnet.MaskBits)";
-  "network/ip: *IPv4.ToUInt32: << uint32: uint32(i.A) << 24";
-  "network/ip: *IPv4.ToUInt32: << uint32: uint32(i.B) << 16";
-  "network/ip: *IPv4.ToUInt32: << uint32: uint32(i.C) << 8";
-  "network/ip: *IPv6.ToUInt128: << uint64: uint64(i.A) << 48";
-  "network/ip: *IPv6.ToUInt128: << uint64: uint64(i.B) << 32";
-  "network/ip: *IPv6.ToUInt128: << uint64: uint64(i.C) << 16";
-  "network/ip: *IPv6.ToUInt128: << uint64: uint64(i.E) << 48";
-  "network/ip: *IPv6.ToUInt128: << uint64: uint64(i.F) << 32";
-  "network/ip: *IPv6.ToUInt128: << uint64: uint64(i.G) << 16";
-  "network/ip: NewTCPPortRangeFromString: narrow to uint16: uint16(end)";
-  "network/ip: NewTCPPortRangeFromString: narrow to uint16: uint16(start)";
-  "network/ldap: ParseSIDFromBytes: << uint64: uint64(sidBytes[2+0]) << 40";
-  "network/ldap: ParseSIDFromBytes: << uint64: uint64(sidBytes[2+1]) << 32";
-  "network/ldap: ParseSIDFromBytes: << uint64: uint64(sidBytes[2+2]) << 24";
-  "network/ldap: ParseSIDFromBytes: << uint64: uint64(sidBytes[2+3]) << 16";
-  "network/ldap: ParseSIDFromBytes: << uint64: uint64(sidBytes[2+4]) << 8";
-  "network/llmnr: *Message.AddAnswer: narrow to uint16: uint16(len(m.Answers))";
-  "network/llmnr: *Message.AddAnswerClassINTypeA: narrow to uint16: uint16(len(m.Questions))";
-  "network/llmnr: *Message.AddAnswerClassINTypeA: narrow to uint16: uint16(len(rr.RData))";
-  "network/llmnr: *Message.AddAnswerClassINTypeAAAA: narrow to uint16: uint16(len(m.Questions))";
-  "network/llmnr: *Message.AddAnswerClassINTypeAAAA: narrow to uint16: uint16(len(rr.RData))";
-  "network/llmnr: *Message.AddQuestion: narrow to uint16: uint16(len(m.Questions))";
-  "network/llmnr: *Message.Encode: narrow to uint16: uint16(len(m.Additional))";
-  "network/llmnr: *Message.Encode: narrow to uint16: uint16(len(m.Answers))";
-  "network/llmnr: *Message.Encode: narrow to uint16: uint16(len(m.Authority))";
-  "network/llmnr: *Message.Encode: narrow to uint16: uint16(len(m.Questions))";
-  "network/llmnr: DecodeMessage: ++ uint16: i++";
-  "network/llmnr: DecodeMessage: ++ uint16: i++";
-  "network/llmnr: DecodeMessage: ++ uint16: i++";
-  "network/llmnr: DecodeMessage: ++ uint16: i++";
-  "network/llmnr: EncodeResourceRecord: narrow to uint16: uint16(len(rr.RData))";
-  "network/netbios/nbt: *NBTTransport.Send: narrow to uint8: byte((length >> 16) & 0x01)";
-  "network/netbios/nbt: *NBTTransport.Send: narrow to uint8: byte((length >> 8) & 0xFF)";
-  "network/netbios/nbt: *NBTTransport.Send: narrow to uint8: byte(length & 0xFF)";
-  "network/netbios/nbtns: *NBTNSPacket.Unmarshal: ++ uint16: i++";
-  "network/netbios/nbtns: *NBTNSPacket.Unmarshal: ++ uint16: i++";
-  "network/netbios/nbtns: *NameChallenger.DefendName: narrow to uint16: uint16(len(response.Answers))";
-  "network/netbios/nbtns: *NetBIOSName.FirstLevelEncode: + uint8: ((name[i] >> 4) & 0x0F) + ASCII_A";
-  "network/netbios/nbtns: *NetBIOSName.FirstLevelEncode: + uint8: (name[i] & 0x0F) + ASCII_A";
-  "network/netbios/nbtns: *PacketHandler.handleNameQuery: narrow to uint16: uint16(len(response.Answers))";
-  "network/netbios/nbtns: *RedirectManager.HandleRedirect: narrow to uint8: byte(info.ServerPort >> 8)";
-  "network/netbios/nbtns: *RedirectManager.HandleRedirect: narrow to uint8: byte(info.ServerPort)";
-  "network/netbios/nbtns: *Server.handleNameQuery: narrow to uint16: uint16(len(response.Answers))";
-  "network/netbios/nbtns: *TCPServer.handleConnection: narrow to uint16: uint16(len(response))";
-  "network/smb/smb_v10/message/data: *Data.Add: narrow to uint16: uint16(len(d.Bytes))";
-  "network/smb/smb_v10/message/data: *Data.SetData: narrow to uint16: uint16(len(data))";
-  "network/smb/smb_v10/spnego: CreateNegTokenInit: narrow to uint8: byte(0x80 | len(lenBytes))";
-  "network/smb/smb_v10/spnego: CreateNegTokenResp: narrow to uint8: byte(0x80 | len(lenBytes))";
-  "network/smb/smb_v10/spnego: encodeLength: narrow to uint8: byte(length & 0xFF)";
-  "network/smb/smb_v10/spnego: encodeLength: narrow to uint8: byte(length)";
-  "network/smb/smb_v10/spnego/ntlm: CreateAuthenticateMessage: narrow to uint16: uint16(len(domainBytes))";
-  "network/smb/smb_v10/spnego/ntlm: CreateAuthenticateMessage: narrow to uint16: uint16(len(domainBytes))";
-  "network/smb/smb_v10/spnego/ntlm: CreateAuthenticateMessage: narrow to uint16: uint16(len(lmResponse))";
-  "network/smb/smb_v10/spnego/ntlm: CreateAuthenticateMessage: narrow to uint16: uint16(len(lmResponse))";
-  "network/smb/smb_v10/spnego/ntlm: CreateAuthenticateMessage: narrow to uint16: uint16(len(ntResponse))";
-  "network/smb/smb_v10/spnego/ntlm: CreateAuthenticateMessage: narrow to uint16: uint16(len(ntResponse))";
-  "network/smb/smb_v10/spnego/ntlm: CreateAuthenticateMessage: narrow to uint16: uint16(len(sessionKey))";
-  "network/smb/smb_v10/spnego/ntlm: CreateAuthenticateMessage: narrow to uint16: uint16(len(sessionKey))";
-  "network/smb/smb_v10/spnego/ntlm: CreateAuthenticateMessage: narrow to uint16: uint16(len(usernameBytes))";
-  "network/smb/smb_v10/spnego/ntlm: CreateAuthenticateMessage: narrow to uint16: uint16(len(usernameBytes))";
-  "network/smb/smb_v10/spnego/ntlm: CreateAuthenticateMessage: narrow to uint16: uint16(len(workstationBytes))";
-  "network/smb/smb_v10/spnego/ntlm: CreateAuthenticateMessage: narrow to uint16: uint16(len(workstationBytes))";
-  "network/smb/smb_v10/spnego/ntlm: CreateAuthenticateMessage: narrow to uint32: uint32(domainOffset)";
-  "network/smb/smb_v10/spnego/ntlm: CreateAuthenticateMessage: narrow to uint32: uint32(lmResponseOffset)";
-  "network/smb/smb_v10/spnego/ntlm: CreateAuthenticateMessage: narrow to uint32: uint32(ntResponseOffset)";
-  "network/smb/smb_v10/spnego/ntlm: CreateAuthenticateMessage: narrow to uint32: uint32(sessionKeyOffset)";
-  "network/smb/smb_v10/spnego/ntlm: CreateAuthenticateMessage: narrow to uint32: uint32(usernameOffset)";
-  "network/smb/smb_v10/spnego/ntlm: CreateAuthenticateMessage: narrow to uint32: uint32(workstationOffset)";
-  "network/smb/smb_v10/spnego/ntlm: CreateNegotiateMessage: narrow to uint16: uint16(len(domainBytes))";
-  "network/smb/smb_v10/spnego/ntlm: CreateNegotiateMessage: narrow to uint16: uint16(len(domainBytes))";
-  "network/smb/smb_v10/spnego/ntlm: CreateNegotiateMessage: narrow to uint16: uint16(len(workstationBytes))";
-  "network/smb/smb_v10/spnego/ntlm: CreateNegotiateMessage: narrow to uint16: uint16(len(workstationBytes))";
-  "network/smb/smb_v10/spnego/ntlm: CreateNegotiateMessage: narrow to uint32: uint32(domainOffset)";
-  "network/smb/smb_v10/spnego/ntlm: CreateNegotiateMessage: narrow to uint32: uint32(workstationOffset)";
-  "network/smb/smb_v10/spnego/ntlm: createDesKey: << uint8: (bytes[0] & 0x01) << 6";
-  "network/smb/smb_v10/spnego/ntlm: createDesKey: << uint8: (bytes[1] & 0x03) << 5";
-  "network/smb/smb_v10/spnego/ntlm: createDesKey: << uint8: (bytes[2] & 0x07) << 4";
-  "network/smb/smb_v10/spnego/ntlm: createDesKey: << uint8: (bytes[3] & 0x0F) << 3";
-  "network/smb/smb_v10/spnego/ntlm: createDesKey: << uint8: (bytes[4] & 0x1F) << 2";
-  "network/smb/smb_v10/spnego/ntlm: createDesKey: << uint8: (bytes[5] & 0x3F) << 1";
-  "network/smb/smb_v10/spnego/ntlm: createDesKey: << uint8: 1 << j";
-  "network/smb/smb_v10/spnego/ntlm: createDesKey: << uint8: key[i] << 1";
-  "network/smb/smb_v10/types: *OEM_STRING.SetString: narrow to uint16: uint16(len(str))";
-  "network/smb/smb_v10/types: *SMB_DATE.Marshal: - uint16: d.Year - 1980";
-  "network/smb/smb_v10/types: *SMB_DATE.Marshal: << uint16: (d.Year - 1980) << 9";
-  "network/smb/smb_v10/types: *SMB_DATE.Marshal: << uint16: uint16(d.Month) << 5";
-  "network/smb/smb_v10/types: *SMB_RESUME_KEY.Marshal: narrow to uint16: uint16(len(byteStream))";
-  "network/smb/smb_v10/types: NewOEM_STRINGFromString: narrow to uint16: uint16(len(str))";
-  "network/smb/smb_v10/types: NewSMB_DATEFromDate: narrow to uint16: uint16(year)";
-  "network/smb/smb_v10/types: NewSMB_DATEFromDate: narrow to uint8: uint8(day)";
-  "network/smb/smb_v10/types: NewSMB_DATEFromDate: narrow to uint8: uint8(month)";
-  "utils/encoding/utf16: DecodeUTF16LE: << uint16: uint16(b[i+1]) << 8";
-  "windows/guid: *GUID.FromRawBytes: << uint16: uint16(data[5]) << 8";
-  "windows/guid: *GUID.FromRawBytes: << uint16: uint16(data[7]) << 8";
-  "windows/guid: *GUID.FromRawBytes: << uint16: uint16(data[8]) << 8";
-  "windows/guid: *GUID.FromRawBytes: << uint32: uint32(data[1]) << 8";
-  "windows/guid: *GUID.FromRawBytes: << uint32: uint32(data[2]) << 16";
-  "windows/guid: *GUID.FromRawBytes: << uint32: uint32(data[3]) << 24";
-  "windows/guid: *GUID.FromRawBytes: << uint64: uint64(data[10]) << 40";
-  "windows/guid: *GUID.FromRawBytes: << uint64: uint64(data[11]) << 32";
-  "windows/guid: *GUID.FromRawBytes: << uint64: uint64(data[12]) << 24";
-  "windows/guid: *GUID.FromRawBytes: << uint64: uint64(data[13]) << 16";
-  "windows/guid: *GUID.FromRawBytes: << uint64: uint64(data[14]) << 8";
-  "windows/guid: *GUID.ToBytes: narrow to uint8: byte((guid.E >> uint64(i*8)) & 0xff)";
-  "windows/guid: *GUID.ToBytes: narrow to uint8: byte(guid.A >> 16)";
-  "windows/guid: *GUID.ToBytes: narrow to uint8: byte(guid.A >> 24)";
-  "windows/guid: *GUID.ToBytes: narrow to uint8: byte(guid.A >> 8)";
-  "windows/guid: *GUID.ToBytes: narrow to uint8: byte(guid.A)";
-  "windows/guid: *GUID.ToBytes: narrow to uint8: byte(guid.B >> 8)";
-  "windows/guid: *GUID.ToBytes: narrow to uint8: byte(guid.B)";
-  "windows/guid: *GUID.ToBytes: narrow to uint8: byte(guid.C >> 8)";
-  "windows/guid: *GUID.ToBytes: narrow to uint8: byte(guid.C)";
-  "windows/guid: *GUID.ToBytes: narrow to uint8: byte(guid.D >> 8)";
-  "windows/guid: *GUID.ToBytes: narrow to uint8: byte(guid.D)";
-  "windows/guid: FromFormatX: << uint64: d << 8";
-  "windows/guid: FromFormatX: << uint64: e << 8";
-  "windows/guid: FromFormatX: narrow to uint16: uint16(d)";
-  "windows/keycredential: *DNWithBinary.Parse: narrow to uint32: uint32(len(rawBytes))";
-  "windows/keycredential: *KeyCredential.FromBytes: += uint32: kc.RawBytesSize += kc.Version.RawBytesSize";
-  "windows/keycredential: writeEntry: narrow to uint16: uint16(len(data))";
-  "windows/keycredential/crypto: *RSAKeyMaterial.FromBytes: << uint32: rk.Exponent << 8";
-  "windows/keycredential/crypto: *RSAKeyMaterial.FromBytes: narrow to uint32: uint32(len(value))";
-  "windows/keycredential/crypto: *RSAKeyMaterial.ToBytes: narrow to uint32: uint32(len(b_exponent))";
-  "windows/keycredential/crypto: *RSAKeyMaterial.ToBytes: narrow to uint32: uint32(len(b_prime1))";
-  "windows/keycredential/crypto: *RSAKeyMaterial.ToBytes: narrow to uint32: uint32(len(b_prime2))";
-  "windows/keycredential/crypto: *RSAKeyMaterial.ToBytes: narrow to uint32: uint32(len(rk.Modulus))";
-  "windows/keycredential/crypto: *SecretEncryptionType.ToBytes: narrow to uint32: uint32(set.Value)";
-  "windows/keycredential/key: *CustomKeyInformation.FromBytes: - uint32: cki.RawBytesSize - 19";
-  "windows/keycredential/key: *CustomKeyInformation.FromBytes: narrow to uint32: uint32(len(blob))";
-  "windows/keycredential/key: *CustomKeyInformation.ToBytes: narrow to uint8: byte(cki.Version)";
-  "windows/keycredential/utils: NewDateTime: * int64: int64(ticks%10000000) * 100"
+  "crypto/pkcs7: narrow to uint8: byte(_)";
+  "crypto/uuid: << uint8: (_.Variant & 0xF) << 4";
+  "crypto/uuid: << uint8: (_.Version & 0xF) << 4";
+  "crypto/uuid: << uint8: (_[6] & 0x0F) << 4";
+  "crypto/uuid: << uint8: (_[7] & 0x0F) << 4";
+  "crypto/uuid: << uint8: _ & 0xF << 4";
+  "crypto/uuid/uuid_v1: * int64: int64(_%10000000) * 100";
+  "crypto/uuid/uuid_v1: - int64: int64(_/10000000) - int64(_/10000000)";
+  "crypto/uuid/uuid_v1: << uint8: byte(_&0x0F) << 4";
+  "crypto/uuid/uuid_v1: narrow to uint16: uint16((_.Time & 0x0000FFFF00000000) >> 32)";
+  "crypto/uuid/uuid_v1: narrow to uint16: uint16((_.Time & 0x0FFF000000000000) >> 48)";
+  "crypto/uuid/uuid_v1: narrow to uint32: uint32(_.Time & 0x00000000FFFFFFFF)";
+  "crypto/uuid/uuid_v1: narrow to uint8: byte((_ >> 4) & 0xFF)";
+  "crypto/uuid/uuid_v1: narrow to uint8: byte((_.ClockSeq & 0x0F00) >> 8)";
+  "crypto/uuid/uuid_v1: narrow to uint8: byte(_ & 0x0F)";
+  "crypto/uuid/uuid_v1: narrow to uint8: byte(_.ClockSeq & 0xFF)";
+  "crypto/uuid/uuid_v2: * int64: int64(_%10000000) * 100";
+  "crypto/uuid/uuid_v2: - int64: int64(_/10000000) - int64(_/10000000)";
+  "crypto/uuid/uuid_v2: << uint8: byte(_&0x0F) << 4";
+  "crypto/uuid/uuid_v2: narrow to uint16: uint16((_.Time & 0x0000FFFF00000000) >> 32)";
+  "crypto/uuid/uuid_v2: narrow to uint16: uint16((_.Time & 0x0FFF000000000000) >> 48)";
+  "crypto/uuid/uuid_v2: narrow to uint8: byte((_ >> 4) & 0xFF)";
+  "crypto/uuid/uuid_v2: narrow to uint8: byte(_ & 0x0F)";
+  "network/ip: - uint8: 32 - _.MaskBits";
+  "network/ip: - uint8: 32 - _.MaskBits";
+  "network/ip: << uint32: uint32(0xFFFFFFFF) << (32 - _.MaskBits)";
+  "network/ip: << uint32: uint32(0xFFFFFFFF) << (32 - _.MaskBits)";
+  "network/ip: << uint32: uint32(_.A) << 24";
+  "network/ip: << uint32: uint32(_.B) << 16";
+  "network/ip: << uint32: uint32(_.C) << 8";
+  "network/ip: << uint64: uint64(_.A) << 48";
+  "network/ip: << uint64: uint64(_.B) << 32";
+  "network/ip: << uint64: uint64(_.C) << 16";
+  "network/ip: << uint64: uint64(_.E) << 48";
+  "network/ip: << uint64: uint64(_.F) << 32";
+  "network/ip: << uint64: uint64(_.G) << 16";
+  "network/ip: narrow to uint16: uint16(_)";
+  "network/ip: narrow to uint16: uint16(_)";
+  "network/ip: narrow to uint8: uint8((_ >> 16) & 0xFF)";
+  "network/ip: narrow to uint8: uint8((_ >> 24) & 0xFF)";
+  "network/ip: narrow to uint8: uint8((_ >> 8) & 0xFF)";
+  "network/ip: narrow to uint8: uint8(_ & 0xFF)";
+  "network/ldap: << uint64: uint64(_[2+0]) << 40";
+  "network/ldap: << uint64: uint64(_[2+1]) << 32";
+  "network/ldap: << uint64: uint64(_[2+2]) << 24";
+  "network/ldap: << uint64: uint64(_[2+3]) << 16";
+  "network/ldap: << uint64: uint64(_[2+4]) << 8";
+  "network/llmnr: ++ uint16: _++";
+  "network/llmnr: ++ uint16: _++";
+  "network/llmnr: ++ uint16: _++";
+  "network/llmnr: ++ uint16: _++";
+  "network/llmnr: narrow to uint16: uint16(len(_.Additional))";
+  "network/llmnr: narrow to uint16: uint16(len(_.Answers))";
+  "network/llmnr: narrow to uint16: uint16(len(_.Answers))";
+  "network/llmnr: narrow to uint16: uint16(len(_.Authority))";
+  "network/llmnr: narrow to uint16: uint16(len(_.Questions))";
+  "network/llmnr: narrow to uint16: uint16(len(_.Questions))";
+  "network/llmnr: narrow to uint16: uint16(len(_.Questions))";
+  "network/llmnr: narrow to uint16: uint16(len(_.Questions))";
+  "network/llmnr: narrow to uint16: uint16(len(_.RData))";
+  "network/llmnr: narrow to uint16: uint16(len(_.RData))";
+  "network/llmnr: narrow to uint16: uint16(len(_.RData))";
+  "network/netbios/nbt: narrow to uint8: byte((_ >> 16) & 0x01)";
+  "network/netbios/nbt: narrow to uint8: byte((_ >> 8) & 0xFF)";
+  "network/netbios/nbt: narrow to uint8: byte(_ & 0xFF)";
+  "network/netbios/nbtns: + uint8: ((_[_] >> 4) & 0x0F) + _";
+  "network/netbios/nbtns: + uint8: (_[_] & 0x0F) + _";
+  "network/netbios/nbtns: ++ uint16: _++";
+  "network/netbios/nbtns: ++ uint16: _++";
+  "network/netbios/nbtns: narrow to uint16: uint16(len(_))";
+  "network/netbios/nbtns: narrow to uint16: uint16(len(_.Answers))";
+  "network/netbios/nbtns: narrow to uint16: uint16(len(_.Answers))";
+  "network/netbios/nbtns: narrow to uint16: uint16(len(_.Answers))";
+  "network/netbios/nbtns: narrow to uint8: byte(_.ServerPort >> 8)";
+  "network/netbios/nbtns: narrow to uint8: byte(_.ServerPort)";
+  "network/smb/smb_v10/message/data: narrow to uint16: uint16(len(_))";
+  "network/smb/smb_v10/message/data: narrow to uint16: uint16(len(_.Bytes))";
+  "network/smb/smb_v10/spnego: narrow to uint8: byte(0x80 | len(_))";
+  "network/smb/smb_v10/spnego: narrow to uint8: byte(0x80 | len(_))";
+  "network/smb/smb_v10/spnego: narrow to uint8: byte(_ & 0xFF)";
+  "network/smb/smb_v10/spnego: narrow to uint8: byte(_)";
+  "network/smb/smb_v10/spnego/ntlm: << uint8: (_[0] & 0x01) << 6";
+  "network/smb/smb_v10/spnego/ntlm: << uint8: (_[1] & 0x03) << 5";
+  "network/smb/smb_v10/spnego/ntlm: << uint8: (_[2] & 0x07) << 4";
+  "network/smb/smb_v10/spnego/ntlm: << uint8: (_[3] & 0x0F) << 3";
+  "network/smb/smb_v10/spnego/ntlm: << uint8: (_[4] & 0x1F) << 2";
+  "network/smb/smb_v10/spnego/ntlm: << uint8: (_[5] & 0x3F) << 1";
+  "network/smb/smb_v10/spnego/ntlm: << uint8: 1 << _";
+  "network/smb/smb_v10/spnego/ntlm: << uint8: _[_] << 1";
+  "network/smb/smb_v10/spnego/ntlm: narrow to uint16: uint16(len(_))";
+  "network/smb/smb_v10/spnego/ntlm: narrow to uint16: uint16(len(_))";
+  "network/smb/smb_v10/spnego/ntlm: narrow to uint16: uint16(len(_))";
+  "network/smb/smb_v10/spnego/ntlm: narrow to uint16: uint16(len(_))";
+  "network/smb/smb_v10/spnego/ntlm: narrow to uint16: uint16(len(_))";
+  "network/smb/smb_v10/spnego/ntlm: narrow to uint16: uint16(len(_))";
+  "network/smb/smb_v10/spnego/ntlm: narrow to uint16: uint16(len(_))";
+  "network/smb/smb_v10/spnego/ntlm: narrow to uint16: uint16(len(_))";
+  "network/smb/smb_v10/spnego/ntlm: narrow to uint16: uint16(len(_))";
+  "network/smb/smb_v10/spnego/ntlm: narrow to uint16: uint16(len(_))";
+  "network/smb/smb_v10/spnego/ntlm: narrow to uint16: uint16(len(_))";
+  "network/smb/smb_v10/spnego/ntlm: narrow to uint16: uint16(len(_))";
+  "network/smb/smb_v10/spnego/ntlm: narrow to uint16: uint16(len(_))";
+  "network/smb/smb_v10/spnego/ntlm: narrow to uint16: uint16(len(_))";
+  "network/smb/smb_v10/spnego/ntlm: narrow to uint16: uint16(len(_))";
+  "network/smb/smb_v10/spnego/ntlm: narrow to uint16: uint16(len(_))";
+  "network/smb/smb_v10/spnego/ntlm: narrow to uint32: uint32(_)";
+  "network/smb/smb_v10/spnego/ntlm: narrow to uint32: uint32(_)";
+  "network/smb/smb_v10/spnego/ntlm: narrow to uint32: uint32(_)";
+  "network/smb/smb_v10/spnego/ntlm: narrow to uint32: uint32(_)";
+  "network/smb/smb_v10/spnego/ntlm: narrow to uint32: uint32(_)";
+  "network/smb/smb_v10/spnego/ntlm: narrow to uint32: uint32(_)";
+  "network/smb/smb_v10/spnego/ntlm: narrow to uint32: uint32(_)";
+  "network/smb/smb_v10/spnego/ntlm: narrow to uint32: uint32(_)";
+  "network/smb/smb_v10/types: - uint16: _.Year - 1980";
+  "network/smb/smb_v10/types: << uint16: (_.Year - 1980) << 9";
+  "network/smb/smb_v10/types: << uint16: uint16(_.Month) << 5";
+  "network/smb/smb_v10/types: narrow to uint16: uint16(_)";
+  "network/smb/smb_v10/types: narrow to uint16: uint16(len(_))";
+  "network/smb/smb_v10/types: narrow to uint16: uint16(len(_))";
+  "network/smb/smb_v10/types: narrow to uint16: uint16(len(_))";
+  "network/smb/smb_v10/types: narrow to uint8: uint8(_)";
+  "network/smb/smb_v10/types: narrow to uint8: uint8(_)";
+  "utils/encoding/utf16: << uint16: uint16(_[_+1]) << 8";
+  "windows/guid: << uint16: uint16(_[5]) << 8";
+  "windows/guid: << uint16: uint16(_[7]) << 8";
+  "windows/guid: << uint16: uint16(_[8]) << 8";
+  "windows/guid: << uint32: uint32(_[1]) << 8";
+  "windows/guid: << uint32: uint32(_[2]) << 16";
+  "windows/guid: << uint32: uint32(_[3]) << 24";
+  "windows/guid: << uint64: _ << 8";
+  "windows/guid: << uint64: _ << 8";
+  "windows/guid: << uint64: uint64(_[10]) << 40";
+  "windows/guid: << uint64: uint64(_[11]) << 32";
+  "windows/guid: << uint64: uint64(_[12]) << 24";
+  "windows/guid: << uint64: uint64(_[13]) << 16";
+  "windows/guid: << uint64: uint64(_[14]) << 8";
+  "windows/guid: narrow to uint16: uint16(_)";
+  "windows/guid: narrow to uint8: byte((_.E >> uint64(_*8)) & 0xff)";
+  "windows/guid: narrow to uint8: byte(_.A >> 16)";
+  "windows/guid: narrow to uint8: byte(_.A >> 24)";
+  "windows/guid: narrow to uint8: byte(_.A >> 8)";
+  "windows/guid: narrow to uint8: byte(_.A)";
+  "windows/guid: narrow to uint8: byte(_.B >> 8)";
+  "windows/guid: narrow to uint8: byte(_.B)";
+  "windows/guid: narrow to uint8: byte(_.C >> 8)";
+  "windows/guid: narrow to uint8: byte(_.C)";
+  "windows/guid: narrow to uint8: byte(_.D >> 8)";
+  "windows/guid: narrow to uint8: byte(_.D)";
+  "windows/keycredential: += uint32: _.RawBytesSize += _.Version.RawBytesSize";
+  "windows/keycredential: narrow to uint16: uint16(len(_))";
+  "windows/keycredential: narrow to uint32: uint32(len(_))";
+  "windows/keycredential/crypto: << uint32: _.Exponent << 8";
+  "windows/keycredential/crypto: narrow to uint32: uint32(_.Value)";
+  "windows/keycredential/crypto: narrow to uint32: uint32(len(_))";
+  "windows/keycredential/crypto: narrow to uint32: uint32(len(_))";
+  "windows/keycredential/crypto: narrow to uint32: uint32(len(_))";
+  "windows/keycredential/crypto: narrow to uint32: uint32(len(_))";
+  "windows/keycredential/crypto: narrow to uint32: uint32(len(_.Modulus))";
+  "windows/keycredential/key: - uint32: _.RawBytesSize - 19";
+  "windows/keycredential/key: narrow to uint32: uint32(len(_))";
+  "windows/keycredential/key: narrow to uint8: byte(_.Version)";
+  "windows/keycredential/utils: * int64: int64(_%10000000) * 100"
 ].
 
 Definition expected_wraps_C08 : list string := [
-  "network/smb/smb_v10/spnego: CreateNegTokenInit: narrow to uint8: byte(0x80 | len(lenBytes))";
-  "network/smb/smb_v10/spnego: CreateNegTokenResp: narrow to uint8: byte(0x80 | len(lenBytes))";
-  "network/smb/smb_v10/spnego: encodeLength: narrow to uint8: byte(length & 0xFF)";
-  "network/smb/smb_v10/spnego: encodeLength: narrow to uint8: byte(length)";
-  "network/smb/smb_v10/spnego/ntlm: CreateAuthenticateMessage: narrow to uint16: uint16(len(domainBytes))";
-  "network/smb/smb_v10/spnego/ntlm: CreateAuthenticateMessage: narrow to uint16: uint16(len(domainBytes))";
-  "network/smb/smb_v10/spnego/ntlm: CreateAuthenticateMessage: narrow to uint16: uint16(len(lmResponse))";
-  "network/smb/smb_v10/spnego/ntlm: CreateAuthenticateMessage: narrow to uint16: uint16(len(lmResponse))";
-  "network/smb/smb_v10/spnego/ntlm: CreateAuthenticateMessage: narrow to uint16: uint16(len(ntResponse))";
-  "network/smb/smb_v10/spnego/ntlm: CreateAuthenticateMessage: narrow to uint16: uint16(len(ntResponse))";
-  "network/smb/smb_v10/spnego/ntlm: CreateAuthenticateMessage: narrow to uint16: uint16(len(sessionKey))";
-  "network/smb/smb_v10/spnego/ntlm: CreateAuthenticateMessage: narrow to uint16: uint16(len(sessionKey))";
-  "network/smb/smb_v10/spnego/ntlm: CreateAuthenticateMessage: narrow to uint16: uint16(len(usernameBytes))";
-  "network/smb/smb_v10/spnego/ntlm: CreateAuthenticateMessage: narrow to uint16: uint16(len(usernameBytes))";
-  "network/smb/smb_v10/spnego/ntlm: CreateAuthenticateMessage: narrow to uint16: uint16(len(workstationBytes))";
-  "network/smb/smb_v10/spnego/ntlm: CreateAuthenticateMessage: narrow to uint16: uint16(len(workstationBytes))";
-  "network/smb/smb_v10/spnego/ntlm: CreateAuthenticateMessage: narrow to uint32: uint32(domainOffset)";
-  "network/smb/smb_v10/spnego/ntlm: CreateAuthenticateMessage: narrow to uint32: uint32(lmResponseOffset)";
-  "network/smb/smb_v10/spnego/ntlm: CreateAuthenticateMessage: narrow to uint32: uint32(ntResponseOffset)";
-  "network/smb/smb_v10/spnego/ntlm: CreateAuthenticateMessage: narrow to uint32: uint32(sessionKeyOffset)";
-  "network/smb/smb_v10/spnego/ntlm: CreateAuthenticateMessage: narrow to uint32: uint32(usernameOffset)";
-  "network/smb/smb_v10/spnego/ntlm: CreateAuthenticateMessage: narrow to uint32: uint32(workstationOffset)";
-  "network/smb/smb_v10/spnego/ntlm: CreateNegotiateMessage: narrow to uint16: uint16(len(domainBytes))";
-  "network/smb/smb_v10/spnego/ntlm: CreateNegotiateMessage: narrow to uint16: uint16(len(domainBytes))";
-  "network/smb/smb_v10/spnego/ntlm: CreateNegotiateMessage: narrow to uint16: uint16(len(workstationBytes))";
-  "network/smb/smb_v10/spnego/ntlm: CreateNegotiateMessage: narrow to uint16: uint16(len(workstationBytes))";
-  "network/smb/smb_v10/spnego/ntlm: CreateNegotiateMessage: narrow to uint32: uint32(domainOffset)";
-  "network/smb/smb_v10/spnego/ntlm: CreateNegotiateMessage: narrow to uint32: uint32(workstationOffset)";
-  "network/smb/smb_v10/spnego/ntlm: createDesKey: << uint8: (bytes[0] & 0x01) << 6";
-  "network/smb/smb_v10/spnego/ntlm: createDesKey: << uint8: (bytes[1] & 0x03) << 5";
-  "network/smb/smb_v10/spnego/ntlm: createDesKey: << uint8: (bytes[2] & 0x07) << 4";
-  "network/smb/smb_v10/spnego/ntlm: createDesKey: << uint8: (bytes[3] & 0x0F) << 3";
-  "network/smb/smb_v10/spnego/ntlm: createDesKey: << uint8: (bytes[4] & 0x1F) << 2";
-  "network/smb/smb_v10/spnego/ntlm: createDesKey: << uint8: (bytes[5] & 0x3F) << 1";
-  "network/smb/smb_v10/spnego/ntlm: createDesKey: << uint8: 1 << j";
-  "network/smb/smb_v10/spnego/ntlm: createDesKey: << uint8: key[i] << 1"
+  "network/smb/smb_v10/spnego: narrow to uint8: byte(0x80 | len(_))";
+  "network/smb/smb_v10/spnego: narrow to uint8: byte(0x80 | len(_))";
+  "network/smb/smb_v10/spnego: narrow to uint8: byte(_ & 0xFF)";
+  "network/smb/smb_v10/spnego: narrow to uint8: byte(_)";
+  "network/smb/smb_v10/spnego/ntlm: << uint8: (_[0] & 0x01) << 6";
+  "network/smb/smb_v10/spnego/ntlm: << uint8: (_[1] & 0x03) << 5";
+  "network/smb/smb_v10/spnego/ntlm: << uint8: (_[2] & 0x07) << 4";
+  "network/smb/smb_v10/spnego/ntlm: << uint8: (_[3] & 0x0F) << 3";
+  "network/smb/smb_v10/spnego/ntlm: << uint8: (_[4] & 0x1F) << 2";
+  "network/smb/smb_v10/spnego/ntlm: << uint8: (_[5] & 0x3F) << 1";
+  "network/smb/smb_v10/spnego/ntlm: << uint8: 1 << _";
+  "network/smb/smb_v10/spnego/ntlm: << uint8: _[_] << 1";
+  "network/smb/smb_v10/spnego/ntlm: narrow to uint16: uint16(len(_))";
+  "network/smb/smb_v10/spnego/ntlm: narrow to uint16: uint16(len(_))";
+  "network/smb/smb_v10/spnego/ntlm: narrow to uint16: uint16(len(_))";
+  "network/smb/smb_v10/spnego/ntlm: narrow to uint16: uint16(len(_))";
+  "network/smb/smb_v10/spnego/ntlm: narrow to uint16: uint16(len(_))";
+  "network/smb/smb_v10/spnego/ntlm: narrow to uint16: uint16(len(_))";
+  "network/smb/smb_v10/spnego/ntlm: narrow to uint16: uint16(len(_))";
+  "network/smb/smb_v10/spnego/ntlm: narrow to uint16: uint16(len(_))";
+  "network/smb/smb_v10/spnego/ntlm: narrow to uint16: uint16(len(_))";
+  "network/smb/smb_v10/spnego/ntlm: narrow to uint16: uint16(len(_))";
+  "network/smb/smb_v10/spnego/ntlm: narrow to uint16: uint16(len(_))";
+  "network/smb/smb_v10/spnego/ntlm: narrow to uint16: uint16(len(_))";
+  "network/smb/smb_v10/spnego/ntlm: narrow to uint16: uint16(len(_))";
+  "network/smb/smb_v10/spnego/ntlm: narrow to uint16: uint16(len(_))";
+  "network/smb/smb_v10/spnego/ntlm: narrow to uint16: uint16(len(_))";
+  "network/smb/smb_v10/spnego/ntlm: narrow to uint16: uint16(len(_))";
+  "network/smb/smb_v10/spnego/ntlm: narrow to uint32: uint32(_)";
+  "network/smb/smb_v10/spnego/ntlm: narrow to uint32: uint32(_)";
+  "network/smb/smb_v10/spnego/ntlm: narrow to uint32: uint32(_)";
+  "network/smb/smb_v10/spnego/ntlm: narrow to uint32: uint32(_)";
+  "network/smb/smb_v10/spnego/ntlm: narrow to uint32: uint32(_)";
+  "network/smb/smb_v10/spnego/ntlm: narrow to uint32: uint32(_)";
+  "network/smb/smb_v10/spnego/ntlm: narrow to uint32: uint32(_)";
+  "network/smb/smb_v10/spnego/ntlm: narrow to uint32: uint32(_)"
 ].
 
 Definition expected_wraps_C09 : list string := [
-  "network/llmnr: *Message.AddAnswer: narrow to uint16: uint16(len(m.Answers))";
-  "network/llmnr: *Message.AddAnswerClassINTypeA: narrow to uint16: uint16(len(m.Questions))";
-  "network/llmnr: *Message.AddAnswerClassINTypeA: narrow to uint16: uint16(len(rr.RData))";
-  "network/llmnr: *Message.AddAnswerClassINTypeAAAA: narrow to uint16: uint16(len(m.Questions))";
-  "network/llmnr: *Message.AddAnswerClassINTypeAAAA: narrow to uint16: uint16(len(rr.RData))";
-  "network/llmnr: *Message.AddQuestion: narrow to uint16: uint16(len(m.Questions))";
-  "network/llmnr: *Message.Encode: narrow to uint16: uint16(len(m.Additional))";
-  "network/llmnr: *Message.Encode: narrow to uint16: uint16(len(m.Answers))";
-  "network/llmnr: *Message.Encode: narrow to uint16: uint16(len(m.Authority))";
-  "network/llmnr: *Message.Encode: narrow to uint16: uint16(len(m.Questions))";
-  "network/llmnr: DecodeMessage: ++ uint16: i++";
-  "network/llmnr: DecodeMessage: ++ uint16: i++";
-  "network/llmnr: DecodeMessage: ++ uint16: i++";
-  "network/llmnr: DecodeMessage: ++ uint16: i++";
-  "network/llmnr: EncodeResourceRecord: narrow to uint16: uint16(len(rr.RData))"
+  "network/llmnr: ++ uint16: _++";
+  "network/llmnr: ++ uint16: _++";
+  "network/llmnr: ++ uint16: _++";
+  "network/llmnr: ++ uint16: _++";
+  "network/llmnr: narrow to uint16: uint16(len(_.Additional))";
+  "network/llmnr: narrow to uint16: uint16(len(_.Answers))";
+  "network/llmnr: narrow to uint16: uint16(len(_.Answers))";
+  "network/llmnr: narrow to uint16: uint16(len(_.Authority))";
+  "network/llmnr: narrow to uint16: uint16(len(_.Questions))";
+  "network/llmnr: narrow to uint16: uint16(len(_.Questions))";
+  "network/llmnr: narrow to uint16: uint16(len(_.Questions))";
+  "network/llmnr: narrow to uint16: uint16(len(_.Questions))";
+  "network/llmnr: narrow to uint16: uint16(len(_.RData))";
+  "network/llmnr: narrow to uint16: uint16(len(_.RData))";
+  "network/llmnr: narrow to uint16: uint16(len(_.RData))"
 ].
 
 Definition expected_wraps_C10 : list string := [
-  "network/netbios/nbtns: *NBTNSPacket.Unmarshal: ++ uint16: i++";
-  "network/netbios/nbtns: *NBTNSPacket.Unmarshal: ++ uint16: i++";
-  "network/netbios/nbtns: *NameChallenger.DefendName: narrow to uint16: uint16(len(response.Answers))";
-  "network/netbios/nbtns: *NetBIOSName.FirstLevelEncode: + uint8: ((name[i] >> 4) & 0x0F) + ASCII_A";
-  "network/netbios/nbtns: *NetBIOSName.FirstLevelEncode: + uint8: (name[i] & 0x0F) + ASCII_A";
-  "network/netbios/nbtns: *PacketHandler.handleNameQuery: narrow to uint16: uint16(len(response.Answers))";
-  "network/netbios/nbtns: *RedirectManager.HandleRedirect: narrow to uint8: byte(info.ServerPort >> 8)";
-  "network/netbios/nbtns: *RedirectManager.HandleRedirect: narrow to uint8: byte(info.ServerPort)";
-  "network/netbios/nbtns: *Server.handleNameQuery: narrow to uint16: uint16(len(response.Answers))";
-  "network/netbios/nbtns: *TCPServer.handleConnection: narrow to uint16: uint16(len(response))"
+  "network/netbios/nbtns: + uint8: ((_[_] >> 4) & 0x0F) + _";
+  "network/netbios/nbtns: + uint8: (_[_] & 0x0F) + _";
+  "network/netbios/nbtns: ++ uint16: _++";
+  "network/netbios/nbtns: ++ uint16: _++";
+  "network/netbios/nbtns: narrow to uint16: uint16(len(_))";
+  "network/netbios/nbtns: narrow to uint16: uint16(len(_.Answers))";
+  "network/netbios/nbtns: narrow to uint16: uint16(len(_.Answers))";
+  "network/netbios/nbtns: narrow to uint16: uint16(len(_.Answers))";
+  "network/netbios/nbtns: narrow to uint8: byte(_.ServerPort >> 8)";
+  "network/netbios/nbtns: narrow to uint8: byte(_.ServerPort)"
 ].
 
 Definition expected_wraps_C11 : list string := [
-  "network/netbios/nbt: *NBTTransport.Send: narrow to uint8: byte((length >> 16) & 0x01)";
-  "network/netbios/nbt: *NBTTransport.Send: narrow to uint8: byte((length >> 8) & 0xFF)";
-  "network/netbios/nbt: *NBTTransport.Send: narrow to uint8: byte(length & 0xFF)"
+  "network/netbios/nbt: narrow to uint8: byte((_ >> 16) & 0x01)";
+  "network/netbios/nbt: narrow to uint8: byte((_ >> 8) & 0xFF)";
+  "network/netbios/nbt: narrow to uint8: byte(_ & 0xFF)"
 ].
 
 Definition expected_wraps_C12 : list string := [
-  "crypto/cmac: shift1: << uint8: src[i] << 1";
-  "crypto/pkcs7: Pad: narrow to uint8: byte(padLen)";
-  "crypto/rc4: *RC4.Reset: narrow to uint8: uint8(i)";
-  "crypto/rc4: *RC4.XORKeyStream: ++ uint8: i++";
-  "crypto/rc4: *RC4.XORKeyStream: += uint8: j += c.s[i]";
-  "crypto/rc4: *RC4.XORKeyStream: narrow to uint8: uint8(int(c.s[i]) + int(c.s[j]))";
-  "crypto/rc4: NewRC4WithKey: + uint8: c.s[i] + key[i%k]";
-  "crypto/rc4: NewRC4WithKey: += uint8: j += c.s[i] + key[i%k]";
-  "crypto/rc4: NewRC4WithKey: narrow to uint8: uint8(i)"
+  "crypto/cmac: << uint8: _[_] << 1";
+  "crypto/pkcs7: narrow to uint8: byte(_)";
+  "crypto/rc4: + uint8: _.s[_] + _[_%_]";
+  "crypto/rc4: ++ uint8: _++";
+  "crypto/rc4: += uint8: _ += _.s[_]";
+  "crypto/rc4: += uint8: _ += _.s[_] + _[_%_]";
+  "crypto/rc4: narrow to uint8: uint8(_)";
+  "crypto/rc4: narrow to uint8: uint8(_)";
+  "crypto/rc4: narrow to uint8: uint8(int(_.s[_]) + int(_.s[_]))"
 ].
 
 Definition expected_wraps_C13 : list string := [
-  "crypto/uuid: *UUID.Marshal: << uint8: (u.Variant & 0xF) << 4";
-  "crypto/uuid: *UUID.Marshal: << uint8: (u.Version & 0xF) << 4";
-  "crypto/uuid: *UUID.Marshal: << uint8: data6low & 0xF << 4";
-  "crypto/uuid: *UUID.Unmarshal: << uint8: (marshalledData[6] & 0x0F) << 4";
-  "crypto/uuid: *UUID.Unmarshal: << uint8: (marshalledData[7] & 0x0F) << 4";
-  "crypto/uuid/uuid_v1: *UUIDv1.GetTime: * int64: int64(timestamp%10000000) * 100";
-  "crypto/uuid/uuid_v1: *UUIDv1.GetTime: - int64: int64(timestamp/10000000) - int64(UUIDv1Epoch/10000000)";
-  "crypto/uuid/uuid_v1: *UUIDv1.Marshal: << uint8: byte(timeHigh&0x0F) << 4";
-  "crypto/uuid/uuid_v1: *UUIDv1.Marshal: narrow to uint16: uint16((u.Time & 0x0000FFFF00000000) >> 32)";
-  "crypto/uuid/uuid_v1: *UUIDv1.Marshal: narrow to uint16: uint16((u.Time & 0x0FFF000000000000) >> 48)";
-  "crypto/uuid/uuid_v1: *UUIDv1.Marshal: narrow to uint32: uint32(u.Time & 0x00000000FFFFFFFF)";
-  "crypto/uuid/uuid_v1: *UUIDv1.Marshal: narrow to uint8: byte((timeHigh >> 4) & 0xFF)";
-  "crypto/uuid/uuid_v1: *UUIDv1.Marshal: narrow to uint8: byte((u.ClockSeq & 0x0F00) >> 8)";
-  "crypto/uuid/uuid_v1: *UUIDv1.Marshal: narrow to uint8: byte(timeHigh & 0x0F)";
-  "crypto/uuid/uuid_v1: *UUIDv1.Marshal: narrow to uint8: byte(u.ClockSeq & 0xFF)";
-  "crypto/uuid/uuid_v2: *UUIDv2.GetTime: * int64: int64(timestamp%10000000) * 100";
-  "crypto/uuid/uuid_v2: *UUIDv2.GetTime: - int64: int64(timestamp/10000000) - int64(UUIDv2Epoch/10000000)";
-  "crypto/uuid/uuid_v2: *UUIDv2.Marshal: << uint8: byte(timeHigh&0x0F) << 4";
-  "crypto/uuid/uuid_v2: *UUIDv2.Marshal: narrow to uint16: uint16((u.Time & 0x0000FFFF00000000) >> 32)";
-  "crypto/uuid/uuid_v2: *UUIDv2.Marshal: narrow to uint16: uint16((u.Time & 0x0FFF000000000000) >> 48)";
-  "crypto/uuid/uuid_v2: *UUIDv2.Marshal: narrow to uint8: byte((timeHigh >> 4) & 0xFF)";
-  "crypto/uuid/uuid_v2: *UUIDv2.Marshal: narrow to uint8: byte(timeHigh & 0x0F)";
-  "windows/guid: *GUID.FromRawBytes: << uint16: uint16(data[5]) << 8";
-  "windows/guid: *GUID.FromRawBytes: << uint16: uint16(data[7]) << 8";
-  "windows/guid: *GUID.FromRawBytes: << uint16: uint16(data[8]) << 8";
-  "windows/guid: *GUID.FromRawBytes: << uint32: uint32(data[1]) << 8";
-  "windows/guid: *GUID.FromRawBytes: << uint32: uint32(data[2]) << 16";
-  "windows/guid: *GUID.FromRawBytes: << uint32: uint32(data[3]) << 24";
-  "windows/guid: *GUID.FromRawBytes: << uint64: uint64(data[10]) << 40";
-  "windows/guid: *GUID.FromRawBytes: << uint64: uint64(data[11]) << 32";
-  "windows/guid: *GUID.FromRawBytes: << uint64: uint64(data[12]) << 24";
-  "windows/guid: *GUID.FromRawBytes: << uint64: uint64(data[13]) << 16";
-  "windows/guid: *GUID.FromRawBytes: << uint64: uint64(data[14]) << 8";
-  "windows/guid: *GUID.ToBytes: narrow to uint8: byte((guid.E >> uint64(i*8)) & 0xff)";
-  "windows/guid: *GUID.ToBytes: narrow to uint8: byte(guid.A >> 16)";
-  "windows/guid: *GUID.ToBytes: narrow to uint8: byte(guid.A >> 24)";
-  "windows/guid: *GUID.ToBytes: narrow to uint8: byte(guid.A >> 8)";
-  "windows/guid: *GUID.ToBytes: narrow to uint8: byte(guid.A)";
-  "windows/guid: *GUID.ToBytes: narrow to uint8: byte(guid.B >> 8)";
-  "windows/guid: *GUID.ToBytes: narrow to uint8: byte(guid.B)";
-  "windows/guid: *GUID.ToBytes: narrow to uint8: byte(guid.C >> 8)";
-  "windows/guid: *GUID.ToBytes: narrow to uint8: byte(guid.C)";
-  "windows/guid: *GUID.ToBytes: narrow to uint8: byte(guid.D >> 8)";
-  "windows/guid: *GUID.ToBytes: narrow to uint8: byte(guid.D)";
-  "windows/guid: FromFormatX: << uint64: d << 8";
-  "windows/guid: FromFormatX: << uint64: e << 8";
-  "windows/guid: FromFormatX: narrow to uint16: uint16(d)";
-  "windows/ms_dtyp/common/data_structures: *FILETIME.GetTime: * int64: (ticks % 10000000) * 100";
-  "windows/ms_dtyp/common/data_structures: *FILETIME.GetTime: - int64: ticks/10000000 - UnixTimestampIn100NsIntervals/10000000";
-  "windows/ms_dtyp/common/data_structures: *FILETIME.ToInt64: << int64: int64(ft.DwHighDateTime) & 0xFFFFFFFF << 32"
+  "crypto/uuid: << uint8: (_.Variant & 0xF) << 4";
+  "crypto/uuid: << uint8: (_.Version & 0xF) << 4";
+  "crypto/uuid: << uint8: (_[6] & 0x0F) << 4";
+  "crypto/uuid: << uint8: (_[7] & 0x0F) << 4";
+  "crypto/uuid: << uint8: _ & 0xF << 4";
+  "crypto/uuid/uuid_v1: * int64: int64(_%10000000) * 100";
+  "crypto/uuid/uuid_v1: - int64: int64(_/10000000) - int64(_/10000000)";
+  "crypto/uuid/uuid_v1: << uint8: byte(_&0x0F) << 4";
+  "crypto/uuid/uuid_v1: narrow to uint16: uint16((_.Time & 0x0000FFFF00000000) >> 32)";
+  "crypto/uuid/uuid_v1: narrow to uint16: uint16((_.Time & 0x0FFF000000000000) >> 48)";
+  "crypto/uuid/uuid_v1: narrow to uint32: uint32(_.Time & 0x00000000FFFFFFFF)";
+  "crypto/uuid/uuid_v1: narrow to uint8: byte((_ >> 4) & 0xFF)";
+  "crypto/uuid/uuid_v1: narrow to uint8: byte((_.ClockSeq & 0x0F00) >> 8)";
+  "crypto/uuid/uuid_v1: narrow to uint8: byte(_ & 0x0F)";
+  "crypto/uuid/uuid_v1: narrow to uint8: byte(_.ClockSeq & 0xFF)";
+  "crypto/uuid/uuid_v2: * int64: int64(_%10000000) * 100";
+  "crypto/uuid/uuid_v2: - int64: int64(_/10000000) - int64(_/10000000)";
+  "crypto/uuid/uuid_v2: << uint8: byte(_&0x0F) << 4";
+  "crypto/uuid/uuid_v2: narrow to uint16: uint16((_.Time & 0x0000FFFF00000000) >> 32)";
+  "crypto/uuid/uuid_v2: narrow to uint16: uint16((_.Time & 0x0FFF000000000000) >> 48)";
+  "crypto/uuid/uuid_v2: narrow to uint8: byte((_ >> 4) & 0xFF)";
+  "crypto/uuid/uuid_v2: narrow to uint8: byte(_ & 0x0F)";
+  "windows/guid: << uint16: uint16(_[5]) << 8";
+  "windows/guid: << uint16: uint16(_[7]) << 8";
+  "windows/guid: << uint16: uint16(_[8]) << 8";
+  "windows/guid: << uint32: uint32(_[1]) << 8";
+  "windows/guid: << uint32: uint32(_[2]) << 16";
+  "windows/guid: << uint32: uint32(_[3]) << 24";
+  "windows/guid: << uint64: _ << 8";
+  "windows/guid: << uint64: _ << 8";
+  "windows/guid: << uint64: uint64(_[10]) << 40";
+  "windows/guid: << uint64: uint64(_[11]) << 32";
+  "windows/guid: << uint64: uint64(_[12]) << 24";
+  "windows/guid: << uint64: uint64(_[13]) << 16";
+  "windows/guid: << uint64: uint64(_[14]) << 8";
+  "windows/guid: narrow to uint16: uint16(_)";
+  "windows/guid: narrow to uint8: byte((_.E >> uint64(_*8)) & 0xff)";
+  "windows/guid: narrow to uint8: byte(_.A >> 16)";
+  "windows/guid: narrow to uint8: byte(_.A >> 24)";
+  "windows/guid: narrow to uint8: byte(_.A >> 8)";
+  "windows/guid: narrow to uint8: byte(_.A)";
+  "windows/guid: narrow to uint8: byte(_.B >> 8)";
+  "windows/guid: narrow to uint8: byte(_.B)";
+  "windows/guid: narrow to uint8: byte(_.C >> 8)";
+  "windows/guid: narrow to uint8: byte(_.C)";
+  "windows/guid: narrow to uint8: byte(_.D >> 8)";
+  "windows/guid: narrow to uint8: byte(_.D)";
+  "windows/ms_dtyp/common/data_structures: * int64: (_ % 10000000) * 100";
+  "windows/ms_dtyp/common/data_structures: - int64: _/10000000 - _/10000000";
+  "windows/ms_dtyp/common/data_structures: << int64: int64(_.DwHighDateTime) & 0xFFFFFFFF << 32"
 ].
 
 Definition expected_wraps_C14 : list string := [
-  "windows/keycredential: *DNWithBinary.Parse: narrow to uint32: uint32(len(rawBytes))";
-  "windows/keycredential: *KeyCredential.FromBytes: += uint32: kc.RawBytesSize += kc.Version.RawBytesSize";
-  "windows/keycredential: writeEntry: narrow to uint16: uint16(len(data))";
-  "windows/keycredential/crypto: *RSAKeyMaterial.FromBytes: << uint32: rk.Exponent << 8";
-  "windows/keycredential/crypto: *RSAKeyMaterial.FromBytes: narrow to uint32: uint32(len(value))";
-  "windows/keycredential/crypto: *RSAKeyMaterial.ToBytes: narrow to uint32: uint32(len(b_exponent))";
-  "windows/keycredential/crypto: *RSAKeyMaterial.ToBytes: narrow to uint32: uint32(len(b_prime1))";
-  "windows/keycredential/crypto: *RSAKeyMaterial.ToBytes: narrow to uint32: uint32(len(b_prime2))";
-  "windows/keycredential/crypto: *RSAKeyMaterial.ToBytes: narrow to uint32: uint32(len(rk.Modulus))";
-  "windows/keycredential/crypto: *SecretEncryptionType.ToBytes: narrow to uint32: uint32(set.Value)";
-  "windows/keycredential/key: *CustomKeyInformation.FromBytes: - uint32: cki.RawBytesSize - 19";
-  "windows/keycredential/key: *CustomKeyInformation.FromBytes: narrow to uint32: uint32(len(blob))";
-  "windows/keycredential/key: *CustomKeyInformation.ToBytes: narrow to uint8: byte(cki.Version)";
-  "windows/keycredential/utils: NewDateTime: * int64: int64(ticks%10000000) * 100"
+  "windows/keycredential: += uint32: _.RawBytesSize += _.Version.RawBytesSize";
+  "windows/keycredential: narrow to uint16: uint16(len(_))";
+  "windows/keycredential: narrow to uint32: uint32(len(_))";
+  "windows/keycredential/crypto: << uint32: _.Exponent << 8";
+  "windows/keycredential/crypto: narrow to uint32: uint32(_.Value)";
+  "windows/keycredential/crypto: narrow to uint32: uint32(len(_))";
+  "windows/keycredential/crypto: narrow to uint32: uint32(len(_))";
+  "windows/keycredential/crypto: narrow to uint32: uint32(len(_))";
+  "windows/keycredential/crypto: narrow to uint32: uint32(len(_))";
+  "windows/keycredential/crypto: narrow to uint32: uint32(len(_.Modulus))";
+  "windows/keycredential/key: - uint32: _.RawBytesSize - 19";
+  "windows/keycredential/key: narrow to uint32: uint32(len(_))";
+  "windows/keycredential/key: narrow to uint8: byte(_.Version)";
+  "windows/keycredential/utils: * int64: int64(_%10000000) * 100"
 ].
 
 Definition expected_wraps_C15 : list string := [
-  "crypto/uuid/uuid_v1: *UUIDv1.GetTime: * int64: int64(timestamp%10000000) * 100";
-  "crypto/uuid/uuid_v1: *UUIDv1.GetTime: - int64: int64(timestamp/10000000) - int64(UUIDv1Epoch/10000000)";
-  "crypto/uuid/uuid_v1: *UUIDv1.Marshal: << uint8: byte(timeHigh&0x0F) << 4";
-  "crypto/uuid/uuid_v1: *UUIDv1.Marshal: narrow to uint16: uint16((u.Time & 0x0000FFFF00000000) >> 32)";
-  "crypto/uuid/uuid_v1: *UUIDv1.Marshal: narrow to uint16: uint16((u.Time & 0x0FFF000000000000) >> 48)";
-  "crypto/uuid/uuid_v1: *UUIDv1.Marshal: narrow to uint32: uint32(u.Time & 0x00000000FFFFFFFF)";
-  "crypto/uuid/uuid_v1: *UUIDv1.Marshal: narrow to uint8: byte((timeHigh >> 4) & 0xFF)";
-  "crypto/uuid/uuid_v1: *UUIDv1.Marshal: narrow to uint8: byte((u.ClockSeq & 0x0F00) >> 8)";
-  "crypto/uuid/uuid_v1: *UUIDv1.Marshal: narrow to uint8: byte(timeHigh & 0x0F)";
-  "crypto/uuid/uuid_v1: *UUIDv1.Marshal: narrow to uint8: byte(u.ClockSeq & 0xFF)";
-  "crypto/uuid/uuid_v2: *UUIDv2.GetTime: * int64: int64(timestamp%10000000) * 100";
-  "crypto/uuid/uuid_v2: *UUIDv2.GetTime: - int64: int64(timestamp/10000000) - int64(UUIDv2Epoch/10000000)";
-  "crypto/uuid/uuid_v2: *UUIDv2.Marshal: << uint8: byte(timeHigh&0x0F) << 4";
-  "crypto/uuid/uuid_v2: *UUIDv2.Marshal: narrow to uint16: uint16((u.Time & 0x0000FFFF00000000) >> 32)";
-  "crypto/uuid/uuid_v2: *UUIDv2.Marshal: narrow to uint16: uint16((u.Time & 0x0FFF000000000000) >> 48)";
-  "crypto/uuid/uuid_v2: *UUIDv2.Marshal: narrow to uint8: byte((timeHigh >> 4) & 0xFF)";
-  "crypto/uuid/uuid_v2: *UUIDv2.Marshal: narrow to uint8: byte(timeHigh & 0x0F)";
-  "network/ldap: ParseSIDFromBytes: << uint64: uint64(sidBytes[2+0]) << 40";
-  "network/ldap: ParseSIDFromBytes: << uint64: uint64(sidBytes[2+1]) << 32";
-  "network/ldap: ParseSIDFromBytes: << uint64: uint64(sidBytes[2+2]) << 24";
-  "network/ldap: ParseSIDFromBytes: << uint64: uint64(sidBytes[2+3]) << 16";
-  "network/ldap: ParseSIDFromBytes: << uint64: uint64(sidBytes[2+4]) << 8";
-  "windows/keycredential/utils: NewDateTime: * int64: int64(ticks%10000000) * 100";
-  "windows/ms_dtyp/common/data_structures: *FILETIME.GetTime: * int64: (ticks % 10000000) * 100";
-  "windows/ms_dtyp/common/data_structures: *FILETIME.GetTime: - int64: ticks/10000000 - UnixTimestampIn100NsIntervals/10000000";
-  "windows/ms_dtyp/common/data_structures: *FILETIME.ToInt64: << int64: int64(ft.DwHighDateTime) & 0xFFFFFFFF << 32"
+  "crypto/uuid/uuid_v1: * int64: int64(_%10000000) * 100";
+  "crypto/uuid/uuid_v1: - int64: int64(_/10000000) - int64(_/10000000)";
+  "crypto/uuid/uuid_v1: << uint8: byte(_&0x0F) << 4";
+  "crypto/uuid/uuid_v1: narrow to uint16: uint16((_.Time & 0x0000FFFF00000000) >> 32)";
+  "crypto/uuid/uuid_v1: narrow to uint16: uint16((_.Time & 0x0FFF000000000000) >> 48)";
+  "crypto/uuid/uuid_v1: narrow to uint32: uint32(_.Time & 0x00000000FFFFFFFF)";
+  "crypto/uuid/uuid_v1: narrow to uint8: byte((_ >> 4) & 0xFF)";
+  "crypto/uuid/uuid_v1: narrow to uint8: byte((_.ClockSeq & 0x0F00) >> 8)";
+  "crypto/uuid/uuid_v1: narrow to uint8: byte(_ & 0x0F)";
+  "crypto/uuid/uuid_v1: narrow to uint8: byte(_.ClockSeq & 0xFF)";
+  "crypto/uuid/uuid_v2: * int64: int64(_%10000000) * 100";
+  "crypto/uuid/uuid_v2: - int64: int64(_/10000000) - int64(_/10000000)";
+  "crypto/uuid/uuid_v2: << uint8: byte(_&0x0F) << 4";
+  "crypto/uuid/uuid_v2: narrow to uint16: uint16((_.Time & 0x0000FFFF00000000) >> 32)";
+  "crypto/uuid/uuid_v2: narrow to uint16: uint16((_.Time & 0x0FFF000000000000) >> 48)";
+  "crypto/uuid/uuid_v2: narrow to uint8: byte((_ >> 4) & 0xFF)";
+  "crypto/uuid/uuid_v2: narrow to uint8: byte(_ & 0x0F)";
+  "network/ldap: << uint64: uint64(_[2+0]) << 40";
+  "network/ldap: << uint64: uint64(_[2+1]) << 32";
+  "network/ldap: << uint64: uint64(_[2+2]) << 24";
+  "network/ldap: << uint64: uint64(_[2+3]) << 16";
+  "network/ldap: << uint64: uint64(_[2+4]) << 8";
+  "windows/keycredential/utils: * int64: int64(_%10000000) * 100";
+  "windows/ms_dtyp/common/data_structures: * int64: (_ % 10000000) * 100";
+  "windows/ms_dtyp/common/data_structures: - int64: _/10000000 - _/10000000";
+  "windows/ms_dtyp/common/data_structures: << int64: int64(_.DwHighDateTime) & 0xFFFFFFFF << 32"
 ].
 
 Definition expected_wraps_C16 : list string := [
-  "network/ldap: ParseSIDFromBytes: << uint64: uint64(sidBytes[2+0]) << 40";
-  "network/ldap: ParseSIDFromBytes: << uint64: uint64(sidBytes[2+1]) << 32";
-  "network/ldap: ParseSIDFromBytes: << uint64: uint64(sidBytes[2+2]) << 24";
-  "network/ldap: ParseSIDFromBytes: << uint64: uint64(sidBytes[2+3]) << 16";
-  "network/ldap: ParseSIDFromBytes: << uint64: uint64(sidBytes[2+4]) << 8"
+  "network/ldap: << uint64: uint64(_[2+0]) << 40";
+  "network/ldap: << uint64: uint64(_[2+1]) << 32";
+  "network/ldap: << uint64: uint64(_[2+2]) << 24";
+  "network/ldap: << uint64: uint64(_[2+3]) << 16";
+  "network/ldap: << uint64: uint64(_[2+4]) << 8"
 ].
 
 Definition expected_wraps_C17 : list string := [
-  "network/netbios/nbtns: *NBTNSPacket.Unmarshal: ++ uint16: i++";
-  "network/netbios/nbtns: *NBTNSPacket.Unmarshal: ++ uint16: i++";
-  "network/netbios/nbtns: *NameChallenger.DefendName: narrow to uint16: uint16(len(response.Answers))";
-  "network/netbios/nbtns: *NetBIOSName.FirstLevelEncode: + uint8: ((name[i] >> 4) & 0x0F) + ASCII_A";
-  "network/netbios/nbtns: *NetBIOSName.FirstLevelEncode: + uint8: (name[i] & 0x0F) + ASCII_A";
-  "network/netbios/nbtns: *PacketHandler.handleNameQuery: narrow to uint16: uint16(len(response.Answers))";
-  "network/netbios/nbtns: *RedirectManager.HandleRedirect: narrow to uint8: byte(info.ServerPort >> 8)";
-  "network/netbios/nbtns: *RedirectManager.HandleRedirect: narrow to uint8: byte(info.ServerPort)";
-  "network/netbios/nbtns: *Server.handleNameQuery: narrow to uint16: uint16(len(response.Answers))";
-  "network/netbios/nbtns: *TCPServer.handleConnection: narrow to uint16: uint16(len(response))"
+  "network/netbios/nbtns: + uint8: ((_[_] >> 4) & 0x0F) + _";
+  "network/netbios/nbtns: + uint8: (_[_] & 0x0F) + _";
+  "network/netbios/nbtns: ++ uint16: _++";
+  "network/netbios/nbtns: ++ uint16: _++";
+  "network/netbios/nbtns: narrow to uint16: uint16(len(_))";
+  "network/netbios/nbtns: narrow to uint16: uint16(len(_.Answers))";
+  "network/netbios/nbtns: narrow to uint16: uint16(len(_.Answers))";
+  "network/netbios/nbtns: narrow to uint16: uint16(len(_.Answers))";
+  "network/netbios/nbtns: narrow to uint8: byte(_.ServerPort >> 8)";
+  "network/netbios/nbtns: narrow to uint8: byte(_.ServerPort)"
 ].
 
 Definition expected_wraps_C18 : list string := [
-  "network/llmnr: *Message.AddAnswer: narrow to uint16: uint16(len(m.Answers))";
-  "network/llmnr: *Message.AddAnswerClassINTypeA: narrow to uint16: uint16(len(m.Questions))";
-  "network/llmnr: *Message.AddAnswerClassINTypeA: narrow to uint16: uint16(len(rr.RData))";
-  "network/llmnr: *Message.AddAnswerClassINTypeAAAA: narrow to uint16: uint16(len(m.Questions))";
-  "network/llmnr: *Message.AddAnswerClassINTypeAAAA: narrow to uint16: uint16(len(rr.RData))";
-  "network/llmnr: *Message.AddQuestion: narrow to uint16: uint16(len(m.Questions))";
-  "network/llmnr: *Message.Encode: narrow to uint16: uint16(len(m.Additional))";
-  "network/llmnr: *Message.Encode: narrow to uint16: uint16(len(m.Answers))";
-  "network/llmnr: *Message.Encode: narrow to uint16: uint16(len(m.Authority))";
-  "network/llmnr: *Message.Encode: narrow to uint16: uint16(len(m.Questions))";
-  "network/llmnr: DecodeMessage: ++ uint16: i++";
-  "network/llmnr: DecodeMessage: ++ uint16: i++";
-  "network/llmnr: DecodeMessage: ++ uint16: i++";
-  "network/llmnr: DecodeMessage: ++ uint16: i++";
-  "network/llmnr: EncodeResourceRecord: narrow to uint16: uint16(len(rr.RData))";
-  "network/netbios/nbtns: *NBTNSPacket.Unmarshal: ++ uint16: i++";
-  "network/netbios/nbtns: *NBTNSPacket.Unmarshal: ++ uint16: i++";
-  "network/netbios/nbtns: *NameChallenger.DefendName: narrow to uint16: uint16(len(response.Answers))";
-  "network/netbios/nbtns: *NetBIOSName.FirstLevelEncode: + uint8: ((name[i] >> 4) & 0x0F) + ASCII_A";
-  "network/netbios/nbtns: *NetBIOSName.FirstLevelEncode: + uint8: (name[i] & 0x0F) + ASCII_A";
-  "network/netbios/nbtns: *PacketHandler.handleNameQuery: narrow to uint16: uint16(len(response.Answers))";
-  "network/netbios/nbtns: *RedirectManager.HandleRedirect: narrow to uint8: byte(info.ServerPort >> 8)";
-  "network/netbios/nbtns: *RedirectManager.HandleRedirect: narrow to uint8: byte(info.ServerPort)";
-  "network/netbios/nbtns: *Server.handleNameQuery: narrow to uint16: uint16(len(response.Answers))";
-  "network/netbios/nbtns: *TCPServer.handleConnection: narrow to uint16: uint16(len(response))"
+  "network/llmnr: ++ uint16: _++";
+  "network/llmnr: ++ uint16: _++";
+  "network/llmnr: ++ uint16: _++";
+  "network/llmnr: ++ uint16: _++";
+  "network/llmnr: narrow to uint16: uint16(len(_.Additional))";
+  "network/llmnr: narrow to uint16: uint16(len(_.Answers))";
+  "network/llmnr: narrow to uint16: uint16(len(_.Answers))";
+  "network/llmnr: narrow to uint16: uint16(len(_.Authority))";
+  "network/llmnr: narrow to uint16: uint16(len(_.Questions))";
+  "network/llmnr: narrow to uint16: uint16(len(_.Questions))";
+  "network/llmnr: narrow to uint16: uint16(len(_.Questions))";
+  "network/llmnr: narrow to uint16: uint16(len(_.Questions))";
+  "network/llmnr: narrow to uint16: uint16(len(_.RData))";
+  "network/llmnr: narrow to uint16: uint16(len(_.RData))";
+  "network/llmnr: narrow to uint16: uint16(len(_.RData))";
+  "network/netbios/nbtns: + uint8: ((_[_] >> 4) & 0x0F) + _";
+  "network/netbios/nbtns: + uint8: (_[_] & 0x0F) + _";
+  "network/netbios/nbtns: ++ uint16: _++";
+  "network/netbios/nbtns: ++ uint16: _++";
+  "network/netbios/nbtns: narrow to uint16: uint16(len(_))";
+  "network/netbios/nbtns: narrow to uint16: uint16(len(_.Answers))";
+  "network/netbios/nbtns: narrow to uint16: uint16(len(_.Answers))";
+  "network/netbios/nbtns: narrow to uint16: uint16(len(_.Answers))";
+  "network/netbios/nbtns: narrow to uint8: byte(_.ServerPort >> 8)";
+  "network/netbios/nbtns: narrow to uint8: byte(_.ServerPort)"
 ].
 
 Definition expected_wraps_C19 : list string := [
-  "windows/keycredential/key: *CustomKeyInformation.FromBytes: - uint32: cki.RawBytesSize - 19";
-  "windows/keycredential/key: *CustomKeyInformation.FromBytes: narrow to uint32: uint32(len(blob))";
-  "windows/keycredential/key: *CustomKeyInformation.ToBytes: narrow to uint8: byte(cki.Version)"
+  "windows/keycredential/key: - uint32: _.RawBytesSize - 19";
+  "windows/keycredential/key: narrow to uint32: uint32(len(_))";
+  "windows/keycredential/key: narrow to uint8: byte(_.Version)"
 ].
 
 Definition expected_wraps_C20 : list string := [
-  "network/ip: *IPv4.ComputeMask: - uint8: 32 - i.MaskBits";
-  "network/ip: *IPv4.ComputeMask: << uint32: uint32(0xFFFFFFFF) << (32 - i.MaskBits)";
-  "network/ip: *IPv4.ComputeMask: narrow to uint8: uint8((masked >> 16) & 0xFF)";
-  "network/ip: *IPv4.ComputeMask: narrow to uint8: uint8((masked >> 24) & 0xFF)";
-  "network/ip: *IPv4.ComputeMask: narrow to uint8: uint8((masked >> 8) & 0xFF)";
-  "network/ip: *IPv4.ComputeMask: narrow to uint8: uint8(masked & 0xFF)";
-  "network/ip: *IPv4.IsInSubnet: - uint8: 32 - subnet.MaskBits";
-  "network/ip: *IPv4.IsInSubnet: << uint32: uint32(0xFFFFFFFF) << (32 - subnet.MaskBits)";
-  "network/ip: *IPv4.ToUInt32: << uint32: uint32(i.A) << 24";
-  "network/ip: *IPv4.ToUInt32: << uint32: uint32(i.B) << 16";
-  "network/ip: *IPv4.ToUInt32: << uint32: uint32(i.C) << 8";
-  "network/ip: *IPv6.ToUInt128: << uint64: uint64(i.A) << 48";
-  "network/ip: *IPv6.ToUInt128: << uint64: uint64(i.B) << 32";
-  "network/ip: *IPv6.ToUInt128: << uint64: uint64(i.C) << 16";
-  "network/ip: *IPv6.ToUInt128: << uint64: uint64(i.E) << 48";
-  "network/ip: *IPv6.ToUInt128: << uint64: uint64(i.F) << 32";
-  "network/ip: *IPv6.ToUInt128: << uint64: uint64(i.G) << 16";
-  "network/ip: NewTCPPortRangeFromString: narrow to uint16: uint16(end)";
-  "network/ip: NewTCPPortRangeFromString: narrow to uint16: uint16(start)"
+  "network/ip: - uint8: 32 - _.MaskBits";
+  "network/ip: - uint8: 32 - _.MaskBits";
+  "network/ip: << uint32: uint32(0xFFFFFFFF) << (32 - _.MaskBits)";
+  "network/ip: << uint32: uint32(0xFFFFFFFF) << (32 - _.MaskBits)";
+  "network/ip: << uint32: uint32(_.A) << 24";
+  "network/ip: << uint32: uint32(_.B) << 16";
+  "network/ip: << uint32: uint32(_.C) << 8";
+  "network/ip: << uint64: uint64(_.A) << 48";
+  "network/ip: << uint64: uint64(_.B) << 32";
+  "network/ip: << uint64: uint64(_.C) << 16";
+  "network/ip: << uint64: uint64(_.E) << 48";
+  "network/ip: << uint64: uint64(_.F) << 32";
+  "network/ip: << uint64: uint64(_.G) << 16";
+  "network/ip: narrow to uint16: uint16(_)";
+  "network/ip: narrow to uint16: uint16(_)";
+  "network/ip: narrow to uint8: uint8((_ >> 16) & 0xFF)";
+  "network/ip: narrow to uint8: uint8((_ >> 24) & 0xFF)";
+  "network/ip: narrow to uint8: uint8((_ >> 8) & 0xFF)";
+  "network/ip: narrow to uint8: uint8(_ & 0xFF)"
 ].
 
